@@ -272,8 +272,6 @@ def install(w: Any) -> None:
                 chk.check_circuit(c, drawn=False, where="at the end of the run")
             chk.final()
             return
-        if "born" in info:
-            chk.check_circuit(info["born"], drawn=True, where=f"after compilation (step {world.tr.step})")
         if kind == "restart":
             for c in world.alive():
                 chk.check_circuit(c, drawn=True, where=f"after recompilation in a new process (step {world.tr.step})")
@@ -287,5 +285,27 @@ def install(w: Any) -> None:
         w.tr.count("c17:resets")
         chk.check_circuit(c, drawn=True, where=f"after reset #{j + 1} of a burst on {c.name} (step {w.tr.step})")
 
+    def on_compiled(c: Any) -> None:
+        # straight after compilation, whether or not the circuit can be evaluated afterwards
+        chk.check_circuit(c, drawn=True, where=f"after compilation (step {w.tr.step})")
+
+    def on_compile_error(c: Any, e: BaseException) -> None:
+        # The symbolic initialisers accepted the parameter shapes at construction, so allocating
+        # and initialising the tensors must not raise - whatever the folding.  Attribution: the
+        # exception passed through a reset_parameters() frame of the code under test.
+        import traceback
+
+        frames = traceback.extract_tb(e.__traceback__)
+        if any(f.name == "reset_parameters" for f in frames):
+            inner = frames[-1]
+            raise Violation(
+                "N10",
+                f"{c.name}: allocating / initialising the parameters raised {type(e).__name__}: "
+                f"{str(e)[:120]} (in {inner.name}) during compilation with fold={w.fold} "
+                f"optimize={w.optimize}",
+            )
+
     w.hooks.append(hook)
     w.on_reset.append(on_reset)
+    w.on_compiled.append(on_compiled)
+    w.on_compile_error.append(on_compile_error)
